@@ -323,6 +323,9 @@ func init() {
 		if t, ok := g.criterionDate(v); ok && g.R.Chance(g.P.Weights["_criterion_dates"]) {
 			s = t
 			e = s.AddDate(0, g.R.Range(0, 14), g.R.Range(0, 20))
+			if g.P.AvoidKnown && !e.After(s) {
+				e = s.Add(time.Nanosecond)
+			}
 		}
 		if mode == ModeNearMiss && g.R.Chance(0.3) {
 			e = s.Add(-time.Nanosecond)
@@ -935,7 +938,7 @@ func init() {
 		if mode != ModeValid && g.R.Chance(0.4) {
 			url = Pick(g.R, []string{"", "foo", "://", "ftp//x"})
 		}
-		return &data.MsgDefineResolver{Definer: a.Addr, ResolverUrl: url, Public: g.R.Chance(0.3)}
+		return &data.MsgDefineResolver{Definer: a.Addr, ResolverUrl: url, Public: g.R.Chance(0.3) && !g.P.AvoidKnown}
 	})
 	regKind("RegisterResolver", false, func(g *Gen, a *Actor, v *Snapshot, mode int) sdk.Msg {
 		var id uint64
